@@ -80,6 +80,17 @@ CHECKS['C19'] = dict(
     design_ref='DESIGN.md section 6, C19',
     technique='Coq proof (decision-logic theorems over all route tables and requests) + regenerated dispatch tables + in-Coq correspondence')
 
+CHECKS['C14'] = dict(
+    text='Theorems over every history of requests and LEASE frames at non-decreasing virtual times (props/C14.v): nothing is sent '
+         'before the first LEASE; under each lease at most the granted number of requests is sent (those released from the queue '
+         'included); a request is sent only before the lease expires; sent ++ still-queued is exactly the arrival order (FIFO, at most '
+         'once, none lost; with a bounded queue only QueueFull-refused requests are missing); a published lease is announced as '
+         'LEASE(ttl in ms, count) as decoded by the peer. Tied to lease.py / rsocket_base.py by an in-Coq correspondence with a real '
+         'lease-honouring client under the virtual clock (four request kinds, fragmentation, bounded queues, expiry boundaries, '
+         'reconnects) and a real lease-publishing server.',
+    design_ref='DESIGN.md section 6, C14',
+    technique='Coq proof (invariant: non-empty queue implies dead lease; induction over histories) + in-Coq correspondence under a virtual clock')
+
 NOT_YET = {}
 
 def main():
